@@ -195,6 +195,22 @@ def straddlers(rng, n):
     return out
 
 
+def repetitions(ck):
+    """long runs of one construct inside one buffer (a count no short enumeration reaches): every fragment kind repeated
+    N times back to back / separated by white space, read with small buffers, the default and one buffer for everything.
+    The C14 predicates are evaluated on the real tokenizer (real vs real); a scanner that recurses or accumulates per
+    token fails here with RecursionError / buffer-dependent results."""
+    n = 1500 if ck.tier == "quick" else 6000
+    frags = [b"%\n", b"%c\r", b"(a)", b"(", b")", b"<41>", b"<<", b">>", b"[", b"]", b"/N", b"/A#41", b"1", b"-.5", b"kw", b"\\",
+             b"(\\\n)", b"(\\101)", b"{", b"}", b"\x00", b"(\r\n)", b"<", b">", b"#", b"/", b"+", b"."]
+    for f in frags:
+        for sep in ([b"", b" "] if ck.tier == "quick" else [b"", b" ", b"\r\n"]):
+            data = (f + sep) * n
+            results = {B: real_tokens(data, B) for B in (7, 1024, 4096, len(data) + 1)}
+            check_real(ck, data, results, origin="repeat:%r x %d sep %r" % (f, n, sep))
+            ck.case(len(results), ("R", f, sep))
+
+
 def direction_b(ck, dev):
     rng = random.Random(ck.seed)
     inputs = []
@@ -429,6 +445,7 @@ def _run(ck):
                       "python re/bytes semantics as transcribed in PSLexOps.tla"]
     direction_a(ck, dev)
     direction_b(ck, dev)
+    repetitions(ck)
     direction_api(ck, dev)
     ck.exhaustive = True
 
